@@ -154,6 +154,17 @@ CLAIMED["C18"] = dict(
               "handler/raise class agreement",
     design="3/C18")
 
+CLAIMED["C16"] = dict(
+    text="Non-interference of the hashed information by a backward data slice (field-sensitive on constant dictionary "
+         "keys, nested functions inlined, content-hash calls as sanitizers, lookup arguments as selectors): no leaf is an "
+         "instance path, component/stage name, clock or randomness; required ingredients (unreplicated executable, "
+         "arguments, file hash+method, producer hashes, image) are present; strong mode returns None when an input is "
+         "missing or anything fails (CFG specialised on fuzzy=False); fuzzy rule as an 8-row truth table; anchored "
+         "longest-first substitution; sorted hash traversal; cache/reset discipline. The 'exactly when' equivalence "
+         "over all pairs of definitions is not decided.",
+    technique="backward data slice for non-interference, CFG specialisation, finite truth table, SUB, table checks",
+    design="3/C16")
+
 NOT_APPLICABLE = {
     "C20": "arithmetic over floating-point stage weights (sums, int(w*1000) truncation, fallback split) for every "
            "stage count: no structural clause is a necessary condition; needs numeric exploration or a solver, i.e. "
